@@ -64,6 +64,7 @@ class IntervalTree:
         # Check the intervals whether they are valid:
         self.left = np.min(intervals)
         self.right = np.max(intervals)
+        self.size = intervals.shape[0]
 
         # We want to return the indices of the intervals instead of their
         # actual bounds. But the original indices will be lost due resorting.
@@ -151,7 +152,8 @@ class IntervalTree:
         if (check_extreme
                 and IntervalTree.interval_contains(query_interval, self.left)
                 and IntervalTree.interval_contains(query_interval, self.right)):
-            return []  # TODO: Return all intervals
+            # Every interval of this tree lies within the query interval:
+            return list(range(self.size))
 
         # Let's start with the centered intervals
         intervals = [int(interval[2]) for interval in node.center
